@@ -34,6 +34,7 @@ var Check = &ev.Check{
 		"files named like imported runtime packages (fmt, wire, strings), constants of map/set/struct/list type, 5 services with inheritance across files, enums/unions/exceptions/typedef chains) x option sets {default, NoZap, EnumTextMarshalStrict, OutputFile, NoRecurse, NoEmbedIDL}. " +
 		"schedules: every map-iteration order (all n! for n<=4 keys; {reverse, rotations, adjacent transpositions} beyond) at every range-over-map execution in compile, gen, internal/plugin and plugin with at most 1 deviating execution (thorough: 2 on the small programs). " +
 		"A state is a node of the choice tree, a transition one order choice; every execution is a real compile+generate into a scratch directory with an in-process ServiceGenerator capturing the plugin request. " +
+		"first-generation family: every small collision program as the FIRST generation of a brand-new process, one process per execution, under every map order with <=1 deviating execution (package-level generator state is pristine only there), compared with the result inside the long-running worker. history family: per program the option sequence default, NoZap, NoEmbedIDL, OutputFile, default, NoRecurse, default, and every (p, q, p) of small programs, into ONE output directory that is not emptied: every file of the fresh-directory result is there with the same bytes. " +
 		"Oracle: identical success/failure, identical path->sha256 map of the output tree, identical plugin request after renumbering ids by (thrift path, service name). distinct_nontrivial = (program, options) pairs whose exploration had at least 2 executions.",
 	Run:    run,
 	Finish: finish,
